@@ -9,7 +9,7 @@
    skip_first/last_n_cycles_R1/R2, dove_R1/R2_distance); every theorem quantifies over it. *)
 From Coq Require Import ZArith List Bool Permutation.
 Import ListNotations.
-From SCMO Require Import Lib.Val Model.C13 Proofs.C13.
+From SCMO Require Import Lib.Val Gen.GenConsensus Model.C13 Model.C13x Proofs.C13 Proofs.C13x.
 Open Scope Z_scope.
 
 (* the consensus base at k is b iff b is called by strictly more fragments than every other base (and is not N) *)
@@ -217,3 +217,185 @@ Example C13_example_options :
   [AnsCons (Ok []); AnsCons (Ok [((0, 21), bG)]); AnsCons (Ok [((0, 21), bT)])].
 Proof. exact ex_opts_facts. Qed.
 Print Assumptions C13_example_options.
+
+(* ================================================================================================================
+   TRANSLATOR TIE.  coq/Gen/GenConsensus.v is regenerated from the current source on every run (tools/c13.py
+   regen_consensus): the comparisons, constants and argument routing of pick_best_base_call, get_consensus_dictionaries,
+   read_to_consensus_dict, Fragment.get_consensus and Molecule.get_consensus.  Model/C13x.v builds the same pipeline from
+   those generated definitions (gpick_best, gfrag_consensus, gmol_table, gmol_consensus, get_consensus).  The theorems
+   below say that this generated model IS the model the theorems above are about (with the repaired skip rule), and
+   restate the property for it; they are re-proved on every run about what the source says now. *)
+Theorem C13_gen_pick : forall cs, gpick_best cs = pick_best cs.
+Proof. exact gpick_best_eq. Qed.
+Print Assumptions C13_gen_pick.
+Theorem C13_gen_window : forall o r1 r2, gwindow o r1 r2 = window o r1 r2.
+Proof. exact gwindow_eq. Qed.
+Print Assumptions C13_gen_window.
+Theorem C13_gen_read_filter : forall w fl r c, gkeep_call w fl r c = keep_call w fl r c.
+Proof. exact gkeep_call_eq. Qed.
+Print Assumptions C13_gen_read_filter.
+Theorem C13_gen_fragment : forall ds f, gfrag_consensus ds f = frag_consensus ds f.
+Proof. exact gfrag_consensus_eq. Qed.
+Print Assumptions C13_gen_fragment.
+(* the skip test of the source is the repaired rule: only dove_safe drops fragments, and then exactly the unpaired ones *)
+Theorem C13_gen_skip_rule : forall ds f, gskip ds f = skip_fixed ds f.
+Proof. exact gskip_eq. Qed.
+Print Assumptions C13_gen_skip_rule.
+Theorem C13_gen_table : forall ds fs t, gmol_table ds fs t = mol_table skip_fixed ds fs t.
+Proof. exact gmol_table_eq. Qed.
+Print Assumptions C13_gen_table.
+Theorem C13_gen_model : forall ds fs, gmol_consensus ds fs = mol_consensus skip_fixed ds fs.
+Proof. exact gmol_consensus_eq. Qed.
+Print Assumptions C13_gen_model.
+(* every column 'ACGTN'.index can return fits the vote vector np.zeros(n) *)
+Theorem C13_gen_vector_fits : g_mol_vector_len = Z.of_nat (length g_mol_columns).
+Proof. exact g_mol_vector_fits. Qed.
+Print Assumptions C13_gen_vector_fits.
+
+(* the property, for the generated model *)
+Theorem C13_gen_majority : forall ds fs out k b, pre fs = true -> gmol_consensus ds fs = Ok out ->
+  (dget k out = Some b <->
+   In b acgt /\ forall b', In b' acgt -> b' <> b -> votes skip_fixed ds fs k b' < votes skip_fixed ds fs k b).
+Proof. exact gen_majority. Qed.
+Print Assumptions C13_gen_majority.
+Theorem C13_gen_consensus_is_majority : forall ds fs out k, bases_ok fs -> gmol_consensus ds fs = Ok out ->
+  dget k out = majority skip_fixed ds fs k.
+Proof. exact gen_is_majority. Qed.
+Print Assumptions C13_gen_consensus_is_majority.
+Theorem C13_gen_total : forall ds fs, pre fs = true -> exists out, gmol_consensus ds fs = Ok out.
+Proof. exact gen_total. Qed.
+Print Assumptions C13_gen_total.
+Theorem C13_gen_tie_absent : forall ds fs out k b1 b2, bases_ok fs -> gmol_consensus ds fs = Ok out ->
+  In b1 acgt -> In b2 acgt -> b1 <> b2 -> votes skip_fixed ds fs k b1 = votes skip_fixed ds fs k b2 ->
+  (forall b, In b acgt -> votes skip_fixed ds fs k b <= votes skip_fixed ds fs k b1) ->
+  dget k out = None.
+Proof. exact gen_tie_absent. Qed.
+Print Assumptions C13_gen_tie_absent.
+Theorem C13_gen_onlyN_absent : forall ds fs out k, bases_ok fs -> gmol_consensus ds fs = Ok out ->
+  (forall f, In f fs -> frag_call skip_fixed ds f k = None) -> dget k out = None.
+Proof. exact gen_onlyN_absent. Qed.
+Print Assumptions C13_gen_onlyN_absent.
+Theorem C13_gen_table_is_votes : forall ds fs t k j, pre fs = true -> gmol_table ds fs [] = Ok t -> (j < 5)%nat ->
+  vnth j (tget k t) = votes skip_fixed ds fs k (index_base j) /\ vnth 4 (tget k t) = 0.
+Proof. exact gen_table_is_votes. Qed.
+Print Assumptions C13_gen_table_is_votes.
+Theorem C13_gen_perm : forall ds fs fs', Permutation fs fs' -> res_equiv (gmol_consensus ds fs) (gmol_consensus ds fs').
+Proof. exact gen_perm. Qed.
+Print Assumptions C13_gen_perm.
+Theorem C13_gen_double : forall ds fs fs2, Permutation fs2 (fs ++ fs) ->
+  res_equiv (gmol_consensus ds fs2) (gmol_consensus ds fs).
+Proof. exact gen_double. Qed.
+Print Assumptions C13_gen_double.
+Theorem C13_gen_specb_sound : forall ds fs out, bases_ok fs -> gmol_consensus ds fs = Ok out -> specb skip_fixed ds fs out = true.
+Proof. exact gen_specb_sound. Qed.
+Print Assumptions C13_gen_specb_sound.
+(* which mate's call a fragment uses where both mates have one: the higher quality; equal quality and the same base:
+   that base; equal quality and different bases: ('N', 0), which is no vote.  One mate only: its call *)
+Theorem C13_gen_mate_rule : forall b1 q1 b2 q2, 0 <= q1 -> 0 <= q2 ->
+  g_frag_pick gpick_best (Some (b1, q1)) (Some (b2, q2)) =
+  if q1 >? q2 then (b1, q1) else if q2 >? q1 then (b2, q2) else if b1 =? b2 then (b1, q1) else (bN, 0).
+Proof. exact gen_mate_rule. Qed.
+Print Assumptions C13_gen_mate_rule.
+Theorem C13_gen_single_mate : forall b q, 0 <= q ->
+  g_frag_pick gpick_best (Some (b, q)) None = (b, q) /\ g_frag_pick gpick_best None (Some (b, q)) = (b, q).
+Proof. exact gen_single_mate. Qed.
+Print Assumptions C13_gen_single_mate.
+Theorem C13_gen_history_query : forall p st ds pr,
+  grun_ops st (p ++ [OpGet ds pr]) = grun_ops st p ++ [ganswer_of ds pr (st ++ held p)].
+Proof. exact gen_history_query. Qed.
+Print Assumptions C13_gen_history_query.
+
+(* ---- the whole argument record of Molecule.get_consensus(dove_safe, only_include_refbase, allow_N, with_probs_and_obs,
+   **kwargs): args = (a_opts : opts, a_allow_N, a_probs).  Which argument changes the statement, and how:
+     allow_N = True            no consensus at all: NotImplementedError, before anything is read (C13_args_allow_N)
+     with_probs_and_obs        nothing: same dictionary, plus the vote table (C13_args_probs)
+     every option in a_opts    only WHICH aligned bases of a mate are calls (C13_opts_keep_iff: the window of dove_safe /
+                               dove_R1/R2_distance, min_phred_score, skip_first/last_n_cycles, only_include_refbase) and, for
+                               dove_safe, that unpaired fragments do not vote (C13_gen_skip_rule); the votes of the
+                               statement are relative to these calls, the majority rule itself is the same for every record
+                               (C13_args_majority) *)
+Theorem C13_args_allow_N : forall a fs, a_allow_N a = true -> get_consensus a fs = OutNotImplemented.
+Proof. exact args_allow_N. Qed.
+Print Assumptions C13_args_allow_N.
+Theorem C13_args_consensus : forall a fs, a_allow_N a = false ->
+  match mol_consensus skip_fixed (a_opts a) fs with
+  | Ok d => out_consensus (get_consensus a fs) = Some d
+  | ValueError => get_consensus a fs = OutValueError
+  | IndexError => get_consensus a fs = OutIndexError
+  end.
+Proof. exact args_consensus. Qed.
+Print Assumptions C13_args_consensus.
+Theorem C13_args_majority : forall a fs out k b, pre fs = true -> a_allow_N a = false ->
+  out_consensus (get_consensus a fs) = Some out ->
+  (dget k out = Some b <->
+   In b acgt /\ forall b', In b' acgt -> b' <> b ->
+                votes skip_fixed (a_opts a) fs k b' < votes skip_fixed (a_opts a) fs k b).
+Proof. exact args_majority. Qed.
+Print Assumptions C13_args_majority.
+Theorem C13_args_total : forall a fs, pre fs = true -> a_allow_N a = false ->
+  exists out, out_consensus (get_consensus a fs) = Some out.
+Proof. exact args_total. Qed.
+Print Assumptions C13_args_total.
+Theorem C13_args_probs : forall o fs, pre fs = true ->
+  exists d t, get_consensus {| a_opts := o; a_allow_N := false; a_probs := true |} fs = OutProbs d t /\
+              get_consensus {| a_opts := o; a_allow_N := false; a_probs := false |} fs = OutCons d /\
+              (t = None -> d = []) /\
+              forall tb k j, t = Some tb -> (j < 5)%nat -> vnth j (tget k tb) = votes skip_fixed o fs k (index_base j).
+Proof. exact args_probs. Qed.
+Print Assumptions C13_args_probs.
+(* outcome for every argument record and every input, no precondition *)
+Theorem C13_args_outcome : forall a fs,
+  get_consensus a fs <> OutValueError /\
+  (get_consensus a fs = OutNotImplemented <-> a_allow_N a = true) /\
+  (get_consensus a fs = OutIndexError <->
+   a_allow_N a = false /\ exists f, In f fs /\ skip_fixed (a_opts a) f = false /\ (length f < 2)%nat).
+Proof. exact args_outcome. Qed.
+Print Assumptions C13_args_outcome.
+(* what the options do to a mate's aligned base (refpos p, query base b, quality q, query position qp, reference base rb) *)
+Theorem C13_opts_keep_iff : forall w fl r p b q qp rb, keep_call w fl r (p, b, q, qp, rb) = true <->
+  (forall s e, w = Some (s, e) -> s <= p <= e) /\
+  (forall m, f_minq fl = Some m -> m <= q) /\
+  (forall n, f_sl fl = Some n -> if r_rev r then n < qp else qp < r_qlen r - n) /\
+  (forall n, f_sf fl = Some n -> if r_rev r then qp < r_qlen r - n else n < qp) /\
+  (forall x, f_refbase fl = Some x -> upper rb = x).
+Proof. exact keep_call_iff. Qed.
+Print Assumptions C13_opts_keep_iff.
+Theorem C13_opts_defaults : forall w d r c,
+  keep_call w (flt1 (dflt d)) r c = in_win w (call_pos c) /\ keep_call w (flt2 (dflt d)) r c = in_win w (call_pos c).
+Proof. exact keep_call_defaults. Qed.
+Print Assumptions C13_opts_defaults.
+
+(* non-vacuity of the generated model, the argument record and the option filters *)
+Example C13_example_generated :
+  pre ex_mol = true /\ gmol_consensus (dflt false) ex_mol = Ok [((0, 21), bG)] /\
+  gmol_consensus (dflt true) ex_mol = Ok [((0, 21), bT)] /\
+  gmol_table (dflt false) ex_mol [] = Ok [((0, 20), (1, 1, 0, 0, 0)); ((0, 21), (0, 0, 2, 1, 0))] /\
+  gmol_consensus (dflt false) (ex_mol ++ [[ex_rd false []]]) = IndexError /\
+  gpick_best [Some (bA, 30); Some (bC, 30); Some (bA, 30)] = (bN, 0) /\
+  gpick_best [Some (bA, 30); None; Some (bC, 37)] = (bC, 37) /\
+  g_frag_pick gpick_best (Some (bA, 30)) (Some (bC, 30)) = (bN, 0) /\
+  grun_ops [] ex_history = run_ops skip_fixed [] ex_history.
+Proof. exact ex_gen_facts. Qed.
+Print Assumptions C13_example_generated.
+Example C13_example_args :
+  get_consensus (ex_args true false) ex_mol = OutNotImplemented /\
+  get_consensus (ex_args false false) ex_mol = OutCons [] /\
+  get_consensus (ex_args false true) ex_mol = OutProbs [] (Some [((0, 20), (1, 1, 0, 0, 0)); ((0, 21), (0, 0, 1, 1, 0))]) /\
+  get_consensus (ex_args false true) [] = OutProbs [] None /\
+  get_consensus {| a_opts := dflt false; a_allow_N := false; a_probs := true |} ex_mol =
+    OutProbs [((0, 21), bG)] (Some [((0, 20), (1, 1, 0, 0, 0)); ((0, 21), (0, 0, 2, 1, 0))]) /\
+  get_consensus {| a_opts := ex_skipc; a_allow_N := false; a_probs := false |} ex_mol = OutCons [((0, 21), bT)] /\
+  get_consensus {| a_opts := dflt false; a_allow_N := false; a_probs := false |} (ex_mol ++ [[ex_rd false []]]) = OutIndexError.
+Proof. exact ex_args_facts. Qed.
+Print Assumptions C13_example_args.
+Example C13_example_filters :
+  let r := {| r_contig := 0; r_start := 20; r_end := 24; r_rev := false; r_md := true; r_calls := []; r_qlen := 4 |} in
+  let fl := {| f_refbase := Some bC; f_minq := Some 20; f_sf := Some 0; f_sl := Some 1 |} in
+  keep_call (Some (20, 23)) fl r (21, bA, 30, 1, 99) = true /\
+  keep_call (Some (20, 23)) fl r (21, bA, 19, 1, 99) = false /\
+  keep_call (Some (20, 23)) fl r (20, bA, 30, 0, 99) = false /\
+  keep_call (Some (20, 23)) fl r (23, bA, 30, 3, 99) = false /\
+  keep_call (Some (20, 23)) fl r (21, bA, 30, 1, 65) = false /\
+  keep_call (Some (22, 23)) fl r (21, bA, 30, 1, 99) = false.
+Proof. exact ex_keep_facts. Qed.
+Print Assumptions C13_example_filters.
